@@ -118,6 +118,16 @@ class Ctx:
         if not ok:
             raise Machinery("binding self-check failed for %s: original=%r corrupted=%r" % (family, v[1], v[2]))
 
+    def pick(self, items, pred, what):
+        """an accepted trace to corrupt in a binding self-check; None (skip the self-check) only when violations were found"""
+        for x in items:
+            if pred(x):
+                return x
+        if self.violations:
+            self.notes.append("binding self-check '%s' skipped: no accepted trace of that shape in a run with violations" % what)
+            return None
+        raise Machinery("no trace available for the binding self-check '%s'" % what)
+
     # ------------------------------------------------------------------ bookkeeping
     def count(self, n=1):
         self.evaluations += n
